@@ -37,7 +37,7 @@ type c06Shared struct {
 	stop    int32
 	readers int32 // readers still running
 	// probe counters (plain maps must not be shared between tasks)
-	pinnedReq, exportPinned, doubleClose, latePins int64
+	pinnedReq, exportPinned, doubleClose, latePins, bracketPrunes int64
 	// commitSeq is odd while the writer is inside SaveVersion (commit in flight)
 	commitSeq int64
 	// finished is a real (race-detector-visible) release/acquire pair: the
@@ -246,6 +246,11 @@ func execC06(p *drv.Plan) *Out {
 	iavl.VerifHooks.BlockUntil = sched.BlockUntil
 	iavl.VerifHooks.Sleep = sched.Sleep
 	defer func() {
+		if out.Tainted {
+			// tasks of the code under test are still alive (hang): the hooks stay
+			// as they are and the process ends after this run
+			return
+		}
 		iavl.VerifHooks.Yield, iavl.VerifHooks.Spawn, iavl.VerifHooks.Enter, iavl.VerifHooks.Exit = nil, nil, nil, nil
 		iavl.VerifHooks.Done, iavl.VerifHooks.BlockUntil, iavl.VerifHooks.Sleep = nil, nil, nil
 		if w.Sim != nil {
@@ -308,6 +313,77 @@ func execC06(p *drv.Plan) *Out {
 			report(0, &drv.Violation{Prop: "C06", Oracle: "C06.pin", Symptom: "pinned-version-deleted", Class: "late-export/async", Detail: fmt.Sprintf("an export of version %d, opened right after DeleteVersionsTo(%d) was queued and held over %d commit(s), is incomplete: %s", lateV, lateN, lateSaves, d), StepID: s.ID})
 		}
 	}
+	var deferred *drv.Step
+	doPrune := func(s drv.Step) *drv.Violation {
+		latest := sh.load(&sh.latest)
+		first := sh.load(&sh.floor)
+		n := s.N
+		if n >= latest {
+			n = latest - 1
+		}
+		// only versions nobody reads: stay below the lowest lease
+		for v := first; v <= n; v++ {
+			if sh.load(&sh.leases[v]) > 0 {
+				n = v - 1
+				break
+			}
+		}
+		if n < first {
+			return nil
+		}
+		pinned := false
+		for v := first; v <= n; v++ {
+			if sh.load(&sh.pins[v]) > 0 {
+				pinned = true
+			}
+		}
+		if !pinned {
+			sh.store(&sh.floor, n+1)
+		}
+		var late *iavl.Exporter
+		var lateErr error
+		if async && !pinned && s.ID%3 == 0 {
+			// an export opened right after the deletion was requested, before
+			// the background pruner had a chance to look: from the moment
+			// Export() returned the version is pinned and must stay complete
+			sched.Atomic(func() {
+				lateErr = tree.DeleteVersionsTo(n)
+				if it, e := tree.GetImmutable(n); e == nil {
+					late, _ = it.Export()
+				}
+			})
+			if late != nil {
+				sh.add(&sh.latePins, 1)
+				// it is kept open over the writer's next commit (which flushes
+				// whatever the pruner queued) and drained afterwards
+				if lateOpen != nil {
+					drainLate(s)
+				}
+				lateOpen, lateV, lateN, lateSaves = late, n, n, 0
+			}
+		}
+		err := lateErr
+		if late == nil && lateErr == nil {
+			err = tree.DeleteVersionsTo(n)
+		}
+		switch {
+		case pinned && !async && err == nil:
+			return &drv.Violation{Prop: "C06", Oracle: "C06.pin", Symptom: "accepted", Class: "prune-pinned", Detail: fmt.Sprintf("DeleteVersionsTo(%d) succeeded while an Exporter is open on a version <= %d", n, n)}
+		case !pinned && err != nil:
+			return &drv.Violation{Prop: "C06", Oracle: "C06.writer", Symptom: "error-on-legal-request", Class: "prune", Detail: fmt.Sprintf("DeleteVersionsTo(%d): %v (floor %d latest %d)", n, err, first, latest)}
+		}
+		if pinned {
+			sh.add(&sh.pinnedReq, 1)
+			if async && err == nil {
+				// the request was accepted and is carried out once the
+				// exporters have gone: from now on nobody may start
+				// reading these versions (the application asked for
+				// their deletion), whatever the pruner's progress
+				sh.store(&sh.floor, n+1)
+			}
+		}
+		return nil
+	}
 	sched.Go("writer", func() {
 		defer func() {
 			if lateOpen != nil {
@@ -341,6 +417,15 @@ func execC06(p *drv.Plan) *Out {
 				case drv.OpSave:
 					if bracket {
 						tree.SetCommitting()
+						if deferred != nil {
+							d := *deferred
+							deferred = nil
+							sh.add(&sh.bracketPrunes, 1)
+							if v := doPrune(d); v != nil {
+								tree.UnsetCommitting()
+								return v
+							}
+						}
 					}
 					sh.add(&sh.commitSeq, 1)
 					h, v, err := tree.SaveVersion()
@@ -357,73 +442,15 @@ func execC06(p *drv.Plan) *Out {
 					}
 					sh.store(&sh.latest, v)
 				case drv.OpPrune:
-					latest := sh.load(&sh.latest)
-					first := sh.load(&sh.floor)
-					n := s.N
-					if n >= latest {
-						n = latest - 1
-					}
-					// only versions nobody reads: stay below the lowest lease
-					for v := first; v <= n; v++ {
-						if sh.load(&sh.leases[v]) > 0 {
-							n = v - 1
-							break
-						}
-					}
-					if n < first {
+					if bracket && async && s.ID%2 == 0 && deferred == nil {
+						// issued inside the bracket of the next commit instead: the
+						// pruner then starts while the tree is marked as committing
+						// and has to wait for the hand-over at its first write
+						d := s
+						deferred = &d
 						return nil
 					}
-					pinned := false
-					for v := first; v <= n; v++ {
-						if sh.load(&sh.pins[v]) > 0 {
-							pinned = true
-						}
-					}
-					if !pinned {
-						sh.store(&sh.floor, n+1)
-					}
-					var late *iavl.Exporter
-					var lateErr error
-					if async && !pinned && s.ID%3 == 0 {
-						// an export opened right after the deletion was requested, before
-						// the background pruner had a chance to look: from the moment
-						// Export() returned the version is pinned and must stay complete
-						sched.Atomic(func() {
-							lateErr = tree.DeleteVersionsTo(n)
-							if it, e := tree.GetImmutable(n); e == nil {
-								late, _ = it.Export()
-							}
-						})
-						if late != nil {
-							sh.add(&sh.latePins, 1)
-							// it is kept open over the writer's next commit (which flushes
-							// whatever the pruner queued) and drained afterwards
-							if lateOpen != nil {
-								drainLate(s)
-							}
-							lateOpen, lateV, lateN, lateSaves = late, n, n, 0
-						}
-					}
-					err := lateErr
-					if late == nil && lateErr == nil {
-						err = tree.DeleteVersionsTo(n)
-					}
-					switch {
-					case pinned && !async && err == nil:
-						return &drv.Violation{Prop: "C06", Oracle: "C06.pin", Symptom: "accepted", Class: "prune-pinned", Detail: fmt.Sprintf("DeleteVersionsTo(%d) succeeded while an Exporter is open on a version <= %d", n, n)}
-					case !pinned && err != nil:
-						return &drv.Violation{Prop: "C06", Oracle: "C06.writer", Symptom: "error-on-legal-request", Class: "prune", Detail: fmt.Sprintf("DeleteVersionsTo(%d): %v (floor %d latest %d)", n, err, first, latest)}
-					}
-					if pinned {
-						sh.add(&sh.pinnedReq, 1)
-						if async && err == nil {
-							// the request was accepted and is carried out once the
-							// exporters have gone: from now on nobody may start
-							// reading these versions (the application asked for
-							// their deletion), whatever the pruner's progress
-							sh.store(&sh.floor, n+1)
-						}
-					}
+					return doPrune(s)
 				}
 				return nil
 			})
@@ -501,6 +528,7 @@ func execC06(p *drv.Plan) *Out {
 		}
 	}
 	if problem != "" {
+		out.Tainted = true
 		sym := "deadlock"
 		if len(problem) > 4 && problem[:4] == "hang" {
 			sym = "hang"
@@ -512,6 +540,7 @@ func execC06(p *drv.Plan) *Out {
 	out.Probes["export.pinned"] = int(sh.exportPinned)
 	out.Probes["export.double-close"] = int(sh.doubleClose)
 	out.Probes["export.late-pin-async"] = int(sh.latePins)
+	out.Probes["prune.inside-commit-bracket"] = int(sh.bracketPrunes)
 	if async {
 		out.Probes["mode.async"]++
 	} else {
